@@ -285,7 +285,7 @@ def gen_vdef(rng):
     if rng.random() < 0.6:
         cands = ["limits", "limits-equal", "default-low", "default-high", "type", "dup", "dup-scale", "angle-name", "angle-type"]
         if oriented:
-            cands += ["no-phi", "phi-first", "not-last", "xy-swap", "xy-missing", "psi-gap"] * 2
+            cands += ["no-phi", "phi-first", "not-last", "xy-swap", "xy-missing", "psi-gap", "angle-moved"] * 2
         else:
             cands += ["xy-unoriented", "theta-only"] if not python else ["theta-only"]
         if any(p[0] == "n" for p in pars):
@@ -326,6 +326,19 @@ def gen_vdef(rng):
                 pars.insert(i, ["gap", "", 1.0, [0.0, 10.0], "", ""])
             else:
                 pars.insert(len(pars) - 1, ["gap", "", 1.0, [0.0, 10.0], "", ""])
+        elif defect == "angle-moved":
+            # one of the orientation rows moved to an arbitrary other position, the first row included
+            names = [x[0] for x in pars if x[4] == "orientation"]
+            nm = rng.choice(names)
+            row = [x for x in pars if x[0] == nm][0]
+            i0 = pars.index(row)
+            pars.remove(row)
+            j = rng.choice([0, 0, rng.randint(0, len(pars))])
+            if j == i0:
+                j = 0 if i0 else len(pars)
+            pars.insert(j, row)
+            if [x[0] for x in pars if x[4] == "orientation"] == names and pars.index(row) == i0:
+                defect = None
         elif defect == "xy-swap":
             xy = "qac" if xy == "qabc" else "qabc"
         elif defect == "xy-missing":
@@ -539,8 +552,25 @@ def main(run):
 
     # ---------------------------------------------------------------- validator stream
     vcases, vmetas = [], []
-    for t in range(60 if not thorough else 400):
-        pars, xy, python, defect = gen_vdef(rng)
+    # corpus: every way of moving one orientation row of a well-formed table to another position (first row included)
+    def _row(n, ty="volume"):
+        return [n, "degrees", 0.0, [-360.0, 360.0], "orientation", ""] if ty == "orientation" else [n, "", 2.0, [0.0, 10.0], ty, ""]
+    vstream = []
+    for angles, xy0 in ((["theta", "phi", "psi"], "qabc"), (["theta", "phi"], "qac")):
+        good = [_row("ra"), _row("sb", "")] + [_row(a, "orientation") for a in angles]
+        vstream.append(([list(r) for r in good], xy0, False, None))
+        for a in angles:
+            i0 = [r[0] for r in good].index(a)
+            for j in range(len(good)):
+                if j != i0:
+                    rows = [list(r) for r in good]
+                    row = rows.pop(i0); rows.insert(j, row)
+                    if [r[0] for r in rows] != [r[0] for r in good]:
+                        vstream.append((rows, xy0, False, "angle-moved"))
+    # (the swap of two adjacent rows is generated twice; harmless)
+    nrand = 60 if not thorough else 400
+    for t in range(len(vstream) + nrand):
+        pars, xy, python, defect = vstream[t] if t < len(vstream) else gen_vdef(rng)
         name = "verif_c09_v%d_%d" % (run.seed, t)
         path = os.path.join(pdir, name + ".py")
         text = vdef_module(pars, xy, python, name)
